@@ -2,6 +2,7 @@
 from __future__ import annotations
 
 import copy
+import math
 import random
 import re
 
@@ -156,10 +157,14 @@ def warmup_task(args):
                             got = float(torch.linalg.norm(delta))
                             sdir = ref.precond(ref.blocks[b - 1], fb)
                             if float(torch.linalg.norm(sdir)) > 1e-12:
-                                if abs(got - want) > 1e-9 * max(want, 1e-30):
+                                # delta is a difference of stored parameters: absolute noise eps*|param| per element; the code adds
+                                # 1e-16 to the Shampoo norm before dividing
+                                pblk = r.params[gi][meta["param"]].detach().view(meta["merged"])[sl]
+                                noise = 1e-15 * math.sqrt(max(pblk.numel(), 1)) * float(pblk.abs().max())
+                                if abs(got - want) > (1e-9 + 4e-16 / float(torch.linalg.norm(sdir))) * max(want, 1e-30) + noise:
                                     mm.append((i + 1, f"g{gi+1}.graft_norm.b{b}", f"||delta|| = lr*||graft dir|| = {want:.6g}", f"{got:.6g}"))
                                 cos = float((delta.reshape(-1) @ sdir.reshape(-1)) / (torch.linalg.norm(delta) * torch.linalg.norm(sdir) + 1e-300))
-                                if abs(cos + 1.0) > 1e-9:
+                                if got > 0 and abs(cos + 1.0) > 1e-9 + 2 * (noise / got) ** 2 + 2 * noise / got * 1e-3:
                                     mm.append((i + 1, f"g{gi+1}.graft_parallel.b{b}", "delta anti-parallel to the Shampoo direction", f"cos={cos:.12f}"))
             if mm:
                 break
